@@ -62,6 +62,11 @@ def grad(val, tens, core_indices = None):
     # only and so that the tensors returned by an earlier call are not updated in place
     for c in tens.cores:
         c.grad = None
+    if not val.requires_grad:
+        # the value does not depend on the watched cores (e.g. it was built from x*0): its derivative is zero
+        if core_indices == None:
+            return [tn.zeros_like(c) for c in tens.cores]
+        return [tn.zeros_like(tens.cores[idx]) for idx in core_indices]
     val.retain_grad()
     val.backward()
     if core_indices == None:
@@ -89,6 +94,11 @@ def grad_list(val, tensors, all_in_one = True):
     for t in tensors:
         for c in t.cores:
             c.grad = None
+    if not val.requires_grad:
+        # see grad(): the derivative of a value that does not depend on the cores is zero
+        if all_in_one:
+            return [tn.zeros_like(c) for t in tensors for c in t.cores]
+        return [[tn.zeros_like(c) for c in t.cores] for t in tensors]
     val.backward()
     cores_list = []
     if all_in_one:
